@@ -258,6 +258,20 @@ def run(tier, seed):
             done += 1
         else:
             break
+    # registry replies: whatever bytes a registry returns, the adapter returns (no panic, no hang) - the C15 generators,
+    # judged here for panics and hangs only
+    from . import c15 as R15
+    rr = random.Random(seed * 31 + 15)
+    rgen = R15.corpus_cases() + [R15.gen_case(rr) for _ in range(500 if tier == 'quick' else 15000)]
+    routs, err = C.run_harness('registry', 0, 0, stdin='\n'.join(json.dumps(g[0]) for g in rgen) + '\n', timeout=3000)
+    if err:
+        rep.broke('harness stream registry failed', err)
+    nreg = 0
+    for g, o in zip(rgen, routs or []):
+        nreg += 1
+        if o['out']['result'] in ('panic', 'hang'):
+            rep.violation(f'registry adapter {g[0]["adapter"]} {o["out"]["result"]}s on a reply', {'script': g[0], 'result': o['out']['result']})
+    rep.cov['streams']['registry_replies'] = {'replies': nreg}
     rep.cov.update({'evaluations': stats['documents'] + stats['service_requests'], 'distinct_nontrivial': len({t for _, t in docs}),
                     'rule': 'per format: generated manifests with 0-3 mutations (truncation, token splicing, Unicode injection, deletion, block moves), hostile version specs planted where a version stands '
                             '(non-ASCII, dangling operators, huge numbers, repeated blanks), sampled prefixes of a document, a large document (x40 / x400), 800 nested brackets, 5000 quotes, a prefix of BOMs / NULs / '
